@@ -20,7 +20,9 @@
 (* driver independently of regclient and of the symbol abstraction (real   *)
 (* crypto/sha256 / sha512 over the concrete bytes, byte count); they must  *)
 (* agree with the abstract comparison, otherwise the tooling is broken     *)
-(* (bad = "oracle-disagree", reported as a tool error, not a violation).   *)
+(* (bad = "oracle-disagree"; the runner first reports what the obligations *)
+(* above say about the run and turns a disagreement into a tool error only *)
+(* when no trace of the run violates them).                                *)
 (***************************************************************************)
 EXTENDS Integers, Sequences, TLC
 VARIABLES hdr,        \* [intended |-> sequence of symbols, size |-> units, 0 = not stated]
@@ -66,10 +68,14 @@ PSeek0(err) ==
 \* had to give when the observation ended (-1 = not observed).  A clean end that leaves bytes of
 \* the source unread has accepted an over-long stream.  partial: bytes of an incomplete symbol handed
 \* over by the last call when the observation stopped without a further read (failed rewind).
+\* the symbol view has the exact length of the bytes only when no incomplete symbol ("p") was
+\* handed over; the length facts are compared only then (an incomplete symbol can never make the
+\* digests equal, so the digest facts are always compared)
+Whole(partial) == partial = 0 /\ \A i \in 1..Len(delivered) : delivered[i] # "p"
 PEnd(shaOk, lenOk, left, partial) ==
   /\ bad' = IF bad # "" THEN bad
             ELSE IF \/ (shaOk = 1) # (delivered = hdr.intended /\ partial = 0)
-                    \/ (lenOk = 1) # (hdr.size = 0 \/ (Len(delivered) = hdr.size /\ partial = 0))
+                    \/ Whole(partial) /\ (lenOk = 1) # (hdr.size = 0 \/ Len(delivered) = hdr.size)
                  THEN "oracle-disagree"
             ELSE IF st = "clean" /\ left > 0 THEN "clean-end-before-end-of-source"
             ELSE ""
